@@ -19,6 +19,7 @@ import os
 import re
 import resource
 import shutil
+import tempfile
 import signal
 import subprocess
 import sys
@@ -437,7 +438,13 @@ def run_shards(binp, work, pid, tier, run, seed, known_open, variant):
             if run["steps"]:
                 cmd += ["-rapid.steps", str(run["steps"])]
         cmd += run["extra"]
-        env = goenv({"VERIF_OUT": out, "VERIF_SHARD": str(i), "VERIF_TIER": tier, "VERIF_SEED": str(sseed), "VERIF_N": str(per),
+        # every shard gets its own scratch directory (RAM backed when there is one) and the driver removes it when the
+        # shard has ended: whatever a killed or crashed case leaves behind goes with it
+        base = "/dev/shm" if os.path.isdir("/dev/shm") and os.access("/dev/shm", os.W_OK) else tempfile.gettempdir()
+        vtmp = os.path.join(base, "verif-tmp-%s-%s-%s-%d-%d" % (pid, tier, re.sub(r"\W", "", run["test"]), i, os.getpid()))
+        shutil.rmtree(vtmp, ignore_errors=True)
+        os.makedirs(vtmp, exist_ok=True)
+        env = goenv({"VERIF_TMP": vtmp, "VERIF_OUT": out, "VERIF_SHARD": str(i), "VERIF_TIER": tier, "VERIF_SEED": str(sseed), "VERIF_N": str(per),
                      "VERIF_KNOWN_OPEN": ",".join(known_open), "VERIF_SRC": os.path.join(work, "src"), "VERIF_DIR": VERIF,
                      "GORACE": "halt_on_error=0 log_path=%s/race" % out})
         env.update(run["env"])
@@ -452,7 +459,7 @@ def run_shards(binp, work, pid, tier, run, seed, known_open, variant):
         lf = open(os.path.join(out, "shard-output.log"), "w")
         p = subprocess.Popen(cmd, cwd=cwd, env=env, stdout=lf, stderr=subprocess.STDOUT, text=True, preexec_fn=limit_mem(variant))
         lf.close()
-        procs.append((i, p, out, cwd, sseed, per))
+        procs.append((i, p, out, cwd, sseed, per, vtmp))
     res = []
 
     def output_of(out):
@@ -465,7 +472,7 @@ def run_shards(binp, work, pid, tier, run, seed, known_open, variant):
         except OSError:
             return ""
 
-    for i, p, out, cwd, sseed, per in procs:
+    for i, p, out, cwd, sseed, per, vtmp in procs:
         try:
             p.wait(timeout=(run["fuzz"] + 600) if run.get("fuzz") else run["timeout"][tier] + 120)
             o = output_of(out)
@@ -477,8 +484,10 @@ def run_shards(binp, work, pid, tier, run, seed, known_open, variant):
             p.wait()
             o = output_of(out)
             o = (o or "") + "\n[driver] shard killed after driver timeout"
+            shutil.rmtree(vtmp, ignore_errors=True)
             res.append(dict(shard=i, rc=-9, out=o, outdir=out, cwd=cwd, seed=sseed, per=per))
             continue
+        shutil.rmtree(vtmp, ignore_errors=True)
         if run.get("fuzz") and p.returncode != 0 and os.path.isdir(os.path.join(cwd, "testdata", "fuzz")):
             # keep the inputs the fuzzer saved (a crashed worker leaves no failure record of the harness)
             keep = os.path.join(WORK, "fuzz-crashers-%s" % pid)
